@@ -1309,7 +1309,12 @@ class DiskRefsContainer(RefsContainer):
         f = GitFile(filename, "wb")
         try:
             f.write(SYMREF + other + b"\n")
-            sha = self.follow(name)[-1]
+            try:
+                sha = self.follow(name)[-1]
+            except SymrefLoop:
+                # The ref being replaced is part of a loop; that must not
+                # keep us from pointing it somewhere else.
+                sha = None
             self._log(
                 name,
                 sha,
